@@ -442,6 +442,9 @@ func gen(r *sim.Rng, tier string) *sim.Case {
 	if r.Pct(8) {
 		c.Params["twin"] = 1 // a second map is used alternately by every thread
 	}
+	if r.N(1000) < 4 {
+		c.Params["warm"] = 1 + r.N(12) // a long earlier life (tens of thousands of keys stored and deleted)
+	}
 	c.Params["elem"] = r.Pick(6, 3, 3, 2, 2) // key/value types: int/int, string/string, struct/three-word struct, interface/pointer, int/struct{}
 	if nKeys <= 32 {
 		c.Params["init_mask"] = r.N(1 << nKeys)
@@ -546,6 +549,25 @@ func setKeys(c *sim.Case) {
 func build(c *sim.Case) enga.Instance {
 	setKeys(c)
 	x := &inst{m: newKV(c.P("elem"), r2(c.P("init_mask"))), init: map[int]int{}, elem: c.P("elem")}
+	if w := c.P("warm"); w > 0 {
+		// a long earlier life: tens of thousands of other keys were stored and deleted again
+		// before the concurrent part starts (internal counters and thresholds have history)
+		// as many as bring a count of past operations to just below a power of two: the
+		// operations of the run itself then cross it
+		n := 1<<[]int{12, 14, 16, 16}[w%4] - 1 - w/4%3
+		ks := make([]int, n)
+		for i := range ks {
+			ks[i] = 1000 + i
+			x.m.Set(ks[i], 1)
+		}
+		if w%2 == 0 {
+			x.m.Delete(ks...)
+		} else {
+			for _, k := range ks {
+				x.m.Delete(k)
+			}
+		}
+	}
 	if c.P("others") == 1 && c.P("elem") != 4 {
 		for i := 0; i < 96; i++ {
 			x.others = append(x.others, newKV(c.P("elem"), 0))
@@ -742,6 +764,9 @@ const site = "mapz.(*SafeKV)"
 func check(run *enga.Run) *sim.Violation {
 	c, recs, res := run.Case, run.Recs, run.Res
 	x := run.Inst.(*inst)
+	if c.P("warm") > 0 {
+		run.Out.Probes["map_with_a_long_earlier_life"]++
+	}
 	if x.tw != nil {
 		run.Out.Probes["twin_instance_used_alternately"]++
 		for _, e := range x.twErr {
